@@ -24,6 +24,16 @@ pub fn spec() -> PropSpec {
 }
 
 fn check_bytes(bytes: &[u8], rep: &mut Report) {
+    // accessors of the mapped form must not panic either (op(i) past the end, ops() on accepted input)
+    if let Err((site, msg)) = catch(|| check_bytes_inner(bytes, &mut *rep)) {
+        let sig = Signature::new("C14", "no_panic").site(format!("{site}: {msg}"));
+        let key = sig.key();
+        rep.violate(|| viol(sig, json!({"kind": "bytes", "bytes_hex": hex::encode(bytes)}), json!("mapped form agrees with the list, None past the end"), json!(format!("panic {site}: {msg}")), String::new()), Some(&key));
+        rep.eval(None, 3);
+    }
+}
+
+fn check_bytes_inner(bytes: &[u8], rep: &mut Report) {
     let list: Result<Vec<Op>, _> = asm::from_bytes(bytes.iter().copied()).collect();
     let owned = catch(|| BytecodeMapped::try_from(bytes.to_vec()));
     let borrowed = catch(|| BytecodeMapped::try_from(bytes));
